@@ -357,9 +357,10 @@ class Flow:
                         continue
                     if ini:
                         nxt = []
-                        for s, v in self.value(ini[0], S):
+                        for Sx, arm in self.split_arms(ini[0], S):
+                          for s, v in self.value(arm, Sx):
                             s = s.copy()
-                            self.dom.local_assign(self, s, d["id"], d.get("name"), ini[0], "=", d)
+                            self.dom.local_assign(self, s, d["id"], d.get("name"), arm, "=", d)
                             t_ = (d.get("dtype") or d.get("type") or "")
                             if t_.replace("const ", "").startswith("struct ") and "*" not in t_:
                                 v = d.get("name")          # a struct copy is a new value, not an alias of its source
@@ -662,8 +663,9 @@ class Flow:
         if (k == "BinaryOperator" and n.get("opcode") == "=") or k == "CompoundAssignOperator":
             out = []
             op = n.get("opcode")
-            for s, v in self.value(ch[1], S):
-                out += self.assign(s, ch[0], v, ch[1], op, n)
+            for Sx, arm in self.split_arms(ch[1], S):
+                for s, v in self.value(arm, Sx):
+                    out += self.assign(s, ch[0], v, arm, op, n)
             return dedupe(out)
         if k == "UnaryOperator" and n.get("opcode") in ("++", "--"):
             out = []
@@ -679,6 +681,16 @@ class Flow:
         for c in ch:
             S = self.effects(c, S, False)
         return S
+
+    def split_arms(self, n, S):
+        """[(states, node)]: a conditional expression as value is split into its arms under the respective outcome of its
+        test (recursively), so that a domain that is handed the value's node sees the arm that applies."""
+        n0 = strip(n, casts=True)
+        if n0["kind"] == "ConditionalOperator":
+            ch = kids(n0)
+            T, F = self.cond(ch[0], S)
+            return (self.split_arms(ch[1], T) if T else []) + (self.split_arms(ch[2], F) if F else [])
+        return [(S, n)]
 
     def value(self, n, S):
         """Evaluate n; returns [(state, value string or None)]."""
